@@ -1,2 +1,51 @@
--- stub: replaced when the area is built
-def main : IO Unit := pure ()
+import Nstd.Common.Basic
+import Nstd.Sha.Model
+import Nstd.Sha.Spec
+/-
+  Line protocol of the Sha area (property C17).  State: one hasher object.
+     reset            a freshly constructed hasher                       -> ok
+     update <hex>     sha.update(bytes)                                  -> ok
+     final            sha.finalize(digest)                               -> <digest hex>
+     rst              sha.reset()                                        -> ok
+     hash <hex>       Sha256::hash                                       -> <digest hex>
+     hmac <key> <msg> Sha256::hmac                                       -> <digest hex>
+     spec <hex>       model side: FIPS 180-4 spec (`Spec.sha256`); real side: Sha256::hash
+     spechmac <k> <m> model side: RFC 2104 spec (`Spec.hmacSha256`); real side: Sha256::hmac
+  The observable is the digest; `update`/`rst` print `ok` only.
+-/
+open Nstd.Common
+namespace Nstd.Sha
+
+def toBytes (l : List Nat) : List UInt8 := l.map UInt8.ofNat
+def hexOf (l : List UInt8) : String := toHex (l.map UInt8.toNat)
+
+def stepLine (st : Sha) (ws : List String) : Sha × String :=
+  match ws with
+  | ["reset"] => (init, "ok")
+  | ["rst"] => (reset st, "ok")
+  | ["final"] => let r := finalize st; (r.2, hexOf r.1)
+  | ["update", d] =>
+    match fromHex d with
+    | some b => (update st (toBytes b), "ok")
+    | none => (st, "bad-op")
+  | ["hash", d] =>
+    match fromHex d with
+    | some b => (st, hexOf (hash (toBytes b)))
+    | none => (st, "bad-op")
+  | ["spec", d] =>
+    match fromHex d with
+    | some b => (st, hexOf (Spec.sha256 (toBytes b)))
+    | none => (st, "bad-op")
+  | ["hmac", k, m] =>
+    match fromHex k, fromHex m with
+    | some k, some m => (st, hexOf (hmac (toBytes k) (toBytes m)))
+    | _, _ => (st, "bad-op")
+  | ["spechmac", k, m] =>
+    match fromHex k, fromHex m with
+    | some k, some m => (st, hexOf (Spec.hmacSha256 (toBytes k) (toBytes m)))
+    | _, _ => (st, "bad-op")
+  | _ => (st, "bad-op")
+
+end Nstd.Sha
+
+def main : IO Unit := Nstd.Common.ioLoop Nstd.Sha.init Nstd.Sha.stepLine
